@@ -576,6 +576,24 @@ func c06mainafterload(c *an.Ctx) {
 	if fn == nil || mainFn == nil {
 		return
 	}
+	// reaches: f (a closure or a helper of package main) calls NSQD.Main, itself or two calls down
+	var reaches func(f *ssa.Function, d int) bool
+	reaches = func(f *ssa.Function, d int) bool {
+		if f == nil || d > 2 || f.Blocks == nil {
+			return false
+		}
+		for _, g := range an.WithAnon(f) {
+			if len(an.CallsTo(g, mainFn)) > 0 {
+				return true
+			}
+			for _, ci := range an.CallsIn(g, func(ssa.CallInstruction) bool { return true }) {
+				if h := an.StaticCallee(ci); h != nil && h != g && h.Pkg == fn.Pkg && reaches(h, d+1) {
+					return true
+				}
+			}
+		}
+		return false
+	}
 	launches := func(in ssa.Instruction, _ *an.PathState) bool {
 		ci, ok := in.(ssa.CallInstruction)
 		if !ok {
@@ -586,12 +604,14 @@ func c06mainafterload(c *an.Ctx) {
 		}
 		if mc, ok := an.Strip(ci.Common().Value).(*ssa.MakeClosure); ok {
 			if f, ok := mc.Fn.(*ssa.Function); ok {
-				for _, g := range an.WithAnon(f) {
-					if len(an.CallsTo(g, mainFn)) > 0 {
-						return true
-					}
+				if bm := an.BoundMethod(f); bm != nil {
+					f = bm
 				}
+				return reaches(f, 0)
 			}
+		}
+		if h := an.StaticCallee(ci); h != nil && h.Pkg == fn.Pkg && h != fn {
+			return reaches(h, 0)
 		}
 		return false
 	}
